@@ -19,6 +19,8 @@ pub struct Ctx {
     pub pki: Pki,
     pub router: (rpki::repository::x509::Name, rpki::crypto::keys::PublicKey),
     pub issuer: ResourceCert,
+    /// a CA under the trust anchor (key k1) that holds AS numbers only
+    pub issuer_as_only: ResourceCert,
     ee_cache: HashMap<String, Vec<u8>>,
 }
 
@@ -39,7 +41,13 @@ impl Ctx {
         };
         let der = build_cert(&pki, &ta, &router);
         let issuer = Cert::decode(Bytes::from(der)).unwrap().validate_ta_at(TalInfo::from_name("t".into()).into_arc(), true, now).expect("TA validates");
-        Ctx { pki, router, issuer, ee_cache: HashMap::new() }
+        let ca = CertParams {
+            kind: "ca".into(), key: "k1".into(), sig_key: "k0".into(), aki: "k0".into(), ski_ok: true, tamper: "none".into(), nb: 0, na: 2,
+            policy: "refuse".into(), v4: rc("missing", &[]), v6: rc("missing", &[]), asn: rc("blocks", &["a1", "a2"]), serial: 2, raw: None,
+            validity: Some(wide),
+        };
+        let issuer_as_only = Cert::decode(Bytes::from(build_cert(&pki, &ca, &router))).unwrap().validate_ca_at(&issuer, true, now).expect("AS-only CA validates");
+        Ctx { pki, router, issuer, issuer_as_only, ee_cache: HashMap::new() }
     }
 
     /// EE certificate for an object of `kind` with EE facet `ee` and coverage facet `cover`.
@@ -58,6 +66,7 @@ impl Ctx {
         let (v4, v6, asn) = match (kind, cover) {
             ("roa", _) => (rc("blocks", &["a1"]), rc("missing", &[]), rc("missing", &[])),
             ("aspa", "inherit") => (rc("missing", &[]), rc("missing", &[]), rc("inherit", &[])),
+            ("aspa", "ipinherit") => (rc("inherit", &[]), rc("missing", &[]), rc("blocks", &["a1"])),
             ("aspa", "hasip4") => (rc("blocks", &["a1"]), rc("missing", &[]), rc("blocks", &["a1"])),
             ("aspa", "hasip6") => (rc("missing", &[]), rc("blocks", &["a1"]), rc("blocks", &["a1"])),
             ("aspa", _) => (rc("missing", &[]), rc("missing", &[]), rc("blocks", &["a1"])),
@@ -71,8 +80,9 @@ impl Ctx {
         } else { None };
         let p = CertParams {
             kind: "ee".into(), key: "e0".into(),
-            sig_key: if ee == "wrongissuer" { "k2".into() } else { "k0".into() },
-            aki: if ee == "akibad" { "k2".into() } else { "k0".into() },
+            // the "ipinherit" object is issued by the AS-only CA (key k1)
+            sig_key: if ee == "wrongissuer" { "k2".into() } else if cover == "ipinherit" { "k1".into() } else { "k0".into() },
+            aki: if ee == "akibad" { "k2".into() } else if cover == "ipinherit" { "k1".into() } else { "k0".into() },
             ski_ok: true, tamper: "none".into(), nb: 0, na: 2, policy: "refuse".into(), v4, v6, asn, serial: 4711, raw, validity: Some(validity),
         };
         let d = build_cert(&self.pki, &p, &self.router);
@@ -174,15 +184,20 @@ pub fn assemble(ctx: &mut Ctx, c: &Value) -> (Vec<u8>, bool) {
 }
 
 fn verdict(ctx: &Ctx, kind: &str, bytes: Vec<u8>, revoked: bool) -> (bool, String) {
+    verdict_under(ctx, &ctx.issuer, kind, bytes, revoked)
+}
+
+fn verdict_under(ctx: &Ctx, issuer: &ResourceCert, kind: &str, bytes: Vec<u8>, revoked: bool) -> (bool, String) {
+    let _ = ctx;
     let crl = |_: &Cert| -> Result<(), ValidationError> {
         if revoked { Err(rpki::repository::error::VerificationError::new("certificate revoked").into()) } else { Ok(()) }
     };
     let b = Bytes::from(bytes);
     let r: Result<(), String> = match kind {
-        "roa" => Roa::decode(b, true).map_err(|e| format!("decode: {e}")).and_then(|o| o.process(&ctx.issuer, true, crl).map(|_| ()).map_err(|e| format!("validate: {e}"))),
-        "aspa" => Aspa::decode(b, true).map_err(|e| format!("decode: {e}")).and_then(|o| o.process(&ctx.issuer, true, crl).map(|_| ()).map_err(|e| format!("validate: {e}"))),
-        "mft" => Manifest::decode(b, true).map_err(|e| format!("decode: {e}")).and_then(|o| o.validate_at(&ctx.issuer, true, Time::now()).map(|_| ()).map_err(|e| format!("validate: {e}"))),
-        _ => SignedObject::decode(b, true).map_err(|e| format!("decode: {e}")).and_then(|o| o.validate_at(&ctx.issuer, true, Time::now()).map(|_| ()).map_err(|e| format!("validate: {e}"))),
+        "roa" => Roa::decode(b, true).map_err(|e| format!("decode: {e}")).and_then(|o| o.process(issuer, true, crl).map(|_| ()).map_err(|e| format!("validate: {e}"))),
+        "aspa" => Aspa::decode(b, true).map_err(|e| format!("decode: {e}")).and_then(|o| o.process(issuer, true, crl).map(|_| ()).map_err(|e| format!("validate: {e}"))),
+        "mft" => Manifest::decode(b, true).map_err(|e| format!("decode: {e}")).and_then(|o| o.validate_at(issuer, true, Time::now()).map(|_| ()).map_err(|e| format!("validate: {e}"))),
+        _ => SignedObject::decode(b, true).map_err(|e| format!("decode: {e}")).and_then(|o| o.validate_at(issuer, true, Time::now()).map(|_| ()).map_err(|e| format!("validate: {e}"))),
     };
     match r { Ok(()) => (true, String::new()), Err(m) => (false, m) }
 }
@@ -196,7 +211,11 @@ pub fn replay(args: &[String]) {
         let want = c["accept"].as_bool().unwrap();
         let r = guarded(|| {
             let (bytes, revoked) = assemble(&mut ctx, c);
-            verdict(&ctx, &kind, bytes, revoked)
+            if c["f"]["cover"] == "ipinherit" {
+                verdict_under(&ctx, &ctx.issuer_as_only, &kind, bytes, revoked)
+            } else {
+                verdict(&ctx, &kind, bytes, revoked)
+            }
         });
         match r {
             Err(m) => s.violation("panic", m, c.clone()),
